@@ -235,7 +235,7 @@ def run_property(prop, cases, classify=None, technique="", functions=None, bound
         names = K.select(prop, tier) if kani is True else list(kani)
         if flt:
             names = [n for n in names if flt in n]
-        kres, kbuild = K.run_all(names, jobs=min(12, os.cpu_count() or 4)) if names else ([], 0.0)
+        kres, kbuild = K.run_all(names, jobs=int(os.environ.get("VERIF_JOBS") or min(12, os.cpu_count() or 4))) if names else ([], 0.0)
         ok = [r for r in kres if r["status"] == "success" and r.get("covers_satisfied", 0) >= 1]
         coverage["kani"] = {
             "harnesses": len(kres), "discharged": len(ok), "build_s": round(kbuild, 1),
